@@ -278,7 +278,9 @@ const QUICK_VALUES: [u8; 10] = [0, 1, 5, 9, 0x1f, 0x40, 0x7f, 0x80, 0xfe, 0xff];
 
 /// multi-byte patterns written over a frame at every position (text escapes, codepage markers,
 /// UTF-8 sequences, version syntax): the crashing inputs of text decoders are rarely single bytes
-const PATTERNS: [&[u8]; 22] = [
+const PATTERNS: [&[u8]; 26] = [
+    // characters that are numeric / alphabetic by Unicode but not ASCII
+    b"0.7A\xC2\xB2", b"7\xC2\xBD", b"\xD9\xA3", b"0.6\xD0\x96",
     // domain dictionary: built-in vehicle codes and track codes, NUL-terminated as on the wire
     b"XFG\x00", b"FZ5\x00", b"BF1\x00", b"UF1\x00", b"MRT\x00", b"BL1\x00", b"AS1R", b"FE2X",
     b"x^J", b"^J", b"^^", b"^", b"1^L^", b"^8x", b"\xC3\xA9", b"0.7\xC3\xA9", b"0.7A\xC3\xA9", b"\xE2\x82\xAC", b"\xF0\x9F\x98\x80",
